@@ -42,6 +42,8 @@ def run(ctx):
     cases = plsssoup.model_cases(ctx, 4 if thorough else 3, plsssoup.ALL_CONFIGS, keep=0.5 if thorough else 1.0)
     ctx.exhaustive = not thorough
     plsssoup.judge(ctx, PROP, cases)
+    # the marker-walk model (spec/PlssWalk.tla): design invariants + replay of every terminal state (drift only)
+    plsssoup.walk_conformance(ctx, 4 if thorough else 3, keep=0.3 if thorough else 1.0)
     more = plsssoup.model_cases(ctx, 5, ["default", "segment", "required", "seg_required", "f_copy_all", "f_copy_seg"],
                                 keep=0.5 if thorough else 0.2, check_model=False, prefix="k", alphabet="core", minlen=4)
     plsssoup.judge(ctx, PROP, more)
